@@ -148,6 +148,17 @@ check(
     "DESIGN.md section 3 / C20",
 )
 
+check(
+    "C15",
+    "property-based testing with harness-owned nondeterminism: differential across fresh processes with different PYTHONHASHSEED, data-encoded call histories, and a deterministic cooperative thread scheduler (sys.settrace) driven by Hypothesis-drawn schedules",
+    "Generated-input search (exploration) over texts x hash seeds x call histories x thread schedules: canonical "
+    "serialisations of get_citations results must be identical across fresh interpreters with different hash seeds, "
+    "across positions in generated call histories (earlier results re-serialised after every step), and under "
+    "generated line-granularity thread schedules and a free-running stress variant.",
+    "Schedules are sampled at Python-line granularity inside eyecite frames; hash seeds are sampled; preemption inside C extensions is not modelled.",
+    "DESIGN.md section 3 / C15",
+)
+
 
 def build():
     all_ids = [f"C{i:02d}" for i in range(1, 21)]
